@@ -6,8 +6,7 @@ Open Scope Z_scope.
 
 Lemma be2_shape : forall n, 0 <= n < 65536 -> exists h l, be 2 n = [h; l] /\ h * 256 + l = n /\ 0 <= h < 256 /\ 0 <= l < 256.
 Proof.
-  intros n H. exists (n / 256), (n mod 256). cbn [be]. change (256 ^ Z.of_nat 1) with 256. change (256 ^ Z.of_nat 0) with 1.
-  rewrite Z.div_1_r.
+  intros n H. exists (n / 256), (n mod 256). cbn [be]. tagsimp. rewrite Z.div_1_r.
   assert (0 <= n / 256 < 256) by (split; [apply Z.div_pos; lia | apply Z.div_lt_upper_bound; lia]).
   rewrite (Z.mod_small (n / 256)) by lia. pose proof (Z.div_mod n 256). pose proof (Z.mod_pos_bound n 256). repeat split; lia.
 Qed.
@@ -106,15 +105,14 @@ Section FloatProof.
     destruct vs as [|v0 rest]; [reflexivity|].
     assert (Hv0 : 0 <= v0 < M64) by (eapply words_ok_In; [exact Hw|left; reflexivity]).
     destruct m as [| |runs| | |].
-    - (* none *) unfold float_enc_with, float_dec. cbn [app]. change (0 / 16 =? 0) with true. cbv iota.
+    - (* none *) unfold float_enc_with, float_dec. cbn [app]. tagsimp. 
       apply unle_all_le_bytes. exact Hw.
     - (* same value *)
       apply andb_true_iff in Hm. destruct Hm as [He Hl].
       pose proof (len_nonneg (v0 :: rest)).
       destruct (be2_shape (len (v0 :: rest))) as (h & l & EB & EV & _); [lia|].
       unfold float_enc_with, float_dec. rewrite EB. cbn [app].
-      change (64 / 16 =? 0) with false. change (64 / 16 =? 3) with false. change (64 / 16 =? 2) with false.
-      change (64 / 16 =? 4) with true. cbv iota.
+      tagsimp. 
       rewrite (all_eq_cons_repeat v0 rest He).
       assert (EN : Z.to_nat (h * 256 + l) = S (length rest)) by (rewrite EV; unfold len; simpl length; lia).
       unfold zero_repaired. destruct (Z.eqb_spec v0 0) as [Ez|Enz].
@@ -122,19 +120,17 @@ Section FloatProof.
       + destruct (le8_shape v0) as (b0&b1&b2&b3&b4&b5&b6&b7&EL). rewrite EL. cbn [app].
         rewrite <- EL. rewrite unle_le by (rewrite pow256_8; assumption). rewrite EN. reflexivity.
     - (* RLE *) unfold float_enc_with, float_dec. cbn [app].
-      change (80 / 16 =? 0) with false. change (80 / 16 =? 3) with false. change (80 / 16 =? 2) with false.
-      change (80 / 16 =? 4) with false. change (80 / 16 =? 5) with true. cbv iota.
+      tagsimp. 
       rewrite rle_roundtrip by assumption. reflexivity.
     - (* snappy *) unfold float_enc_with, float_dec. cbn [app].
-      change (32 / 16 =? 0) with false. change (32 / 16 =? 3) with false. change (32 / 16 =? 2) with true. cbv iota.
+      tagsimp. 
       rewrite snappy_roundtrip by apply le_bytes_ok_all. apply unle_all_le_bytes. exact Hw.
     - (* gorilla *) unfold float_enc_with, float_dec.
       destruct (gor_c (v0 :: rest)) as [g|] eqn:EG; [|discriminate]. cbn [app].
-      change (48 / 16 =? 0) with false. change (48 / 16 =? 3) with true. cbv iota.
+      tagsimp. 
       eapply gorilla_roundtrip; eauto.
     - (* MLF *) unfold float_enc_with, float_dec. cbn [app].
-      change (96 / 16 =? 0) with false. change (96 / 16 =? 3) with false. change (96 / 16 =? 2) with false.
-      change (96 / 16 =? 4) with false. change (96 / 16 =? 5) with false. change (96 / 16 =? 6) with true. cbv iota.
+      tagsimp. 
       apply mlf_roundtrip. exact Hw.
   Qed.
 
